@@ -101,7 +101,11 @@ theorem prog_stepPdWait {s s' : State} {t : Tid} {j : SemId} {e : Ev} (hpc : s.p
        simp only [offS, Frame.count] at this ⊢
        exact Nat.lt_of_le_of_lt (this _) (by omega))
     | (cases h
-       exact .inr (.inr ⟨by simp [startScan], by simp [startScan], .inr (.inr (.inr (.inl ⟨j, hpc, by simp_all⟩)))⟩))
+       refine .inr (.inr ⟨by simp [startScan], by simp [startScan], .inr (.inr (.inr (.inl ⟨j, hpc, by simp_all, ?_⟩)))⟩)
+       simp only [rk, startScan, setPc_pc, if_pos, setPc_fr, setPc_post, setFr_fr, setFr_post, setSem_fr, setSem_post]
+       have := fun f => rank_loopNext f 0 (s.fr t).count (s.post t)
+       simp only [offU, offS, Frame.count] at this ⊢
+       exact Nat.lt_of_le_of_lt (this _) (by omega))
 
 theorem prog_stepFree {s s' : State} {t : Tid} {e : Ev} (hpc : s.pc t = .wFree)
     (h : stepFree s t e = .ok s') : Prog s s' t e := by
